@@ -279,6 +279,17 @@ def _pipeline_step(workdir, image_path):
     return os.path.join(wk, "processed", "fake_test1")
 
 
+def _spell(outdir, style):
+    """The output directory as the caller names it (the working directory is its parent for the relative styles)."""
+    if style == "abs":
+        return outdir
+    name = os.path.basename(outdir)
+    if style == "rel":
+        return name
+    os.makedirs(os.path.join(os.path.dirname(outdir), "x"), exist_ok=True)
+    return os.path.join("x", os.pardir, name)          # x/../out
+
+
 def run_workflow(wf):
     """wf = {name, outdir, steps}; a step is ("cli", argv) | ("tile_fits", {fits, method, override}) |
     ("pipeline", {image}).  Returns wf plus 'obs': one observation per step (or 'error')."""
@@ -294,8 +305,11 @@ def run_workflow(wf):
     out["obs"] = []
     sink = io.StringIO()
     outdir = wf["outdir"]
+    cwd = os.getcwd()
     try:
         with contextlib.redirect_stdout(sink), contextlib.redirect_stderr(sink):
+            if wf.get("path_style", "abs") != "abs":
+                os.chdir(os.path.dirname(outdir))       # the directory is named relative to the working directory
             import warnings
             from toasty import cli, tile_fits, TilingMethod
             for kind, arg in wf["steps"]:
@@ -311,7 +325,8 @@ def run_workflow(wf):
                         outdir = _pipeline_step(wf["outdir"], arg["image"])
                     elif kind == "tile_fits":
                         existed = os.path.isdir(outdir)
-                        odir, bld = tile_fits(arg["fits"], out_dir=outdir, parallel=1, override=arg["override"],
+                        given = _spell(outdir, wf.get("path_style", "abs"))
+                        odir, bld = tile_fits(arg["fits"], out_dir=given, parallel=1, override=arg["override"],
                                               tiling_method=getattr(TilingMethod, arg["method"]))
                         extra["existed"] = existed
                         extra["out_dir_ok"] = os.path.abspath(odir) == os.path.abspath(outdir)
@@ -324,6 +339,8 @@ def run_workflow(wf):
                 out["obs"].append(o)
     except BaseException as e:  # noqa  (SystemExit from cli.die included)
         out["error"] = "%r\n%s" % (e, traceback.format_exc()[-1500:])
+    finally:
+        os.chdir(cwd)
     return out
 
 
@@ -361,10 +378,10 @@ def judge_module(cases):
     return tla.module("MCWtmlJudge", ["Wtml", "Json", "IOUtils"], defs)
 
 
-def history_module(pops, ext):
+def history_module(pops, ext, emit_from):
     fn = " @@ ".join("(%s :> %s)" % (tla.lit(i), tla.lit(set(tuple(p) for p in ps))) for i, ps in sorted(pops.items()))
     defs = [("MCInputs", tla.lit(set(pops))), ("MCPop", fn), ("MCExt", tla.lit(chars(ext))),
-            'Emit == Len(hist) = MaxLen => PrintT(<<"H", ToJson(hist)>>)']
+            'Emit == Len(hist) >= %d => PrintT(<<"H", ToJson(hist)>>)' % emit_from]
     return tla.module("MCWtmlHistory", ["WtmlHistory", "Json"], defs)
 
 
@@ -390,6 +407,7 @@ CONSTANTS
  MaxLen = %(maxlen)d
  ReuseRestores = %(restores)s
  OverrideClears = %(clears)s
+ Cache = "%(cache)s"
 INVARIANT ReturnedAgrees
 INVARIANT TemplateAddressesFiles
 INVARIANT LevelsIsDeepest
@@ -510,7 +528,7 @@ def run(ctx):
         FITS_INPUTS["M" + "".join(o)] = ([inp[x] for x in o], "TOAST")
     multi_toast = ["MFG", "MGF", "MFHG", "MHGF", "MGFH"] if quick else ["M" + "".join(o) for o in toast_orders]
     hist_inputs = ["A", "MFG"] if quick else ["A", "B", "C", "MFHG"]
-    maxlen = 3 if quick else 4
+    maxlen = 4
 
     def cli_view_toast(name, order):
         """`toasty view --tile-only --tiling-method toast`: the CLI path into FitsTiler; the output directory is
@@ -637,22 +655,54 @@ def run(ctx):
                 ctx.machinery("reference run of input %s populated nothing" % i)
             pops[i] = ps
         ctx.note("history_inputs", {i: {"positions": len(pops[i]), "deepest": max(p[0] for p in pops[i])} for i in pops})
-        hmod = {"MCWtmlHistory.tla": history_module(pops, FITS_EXT)}
-        cfg = {"scheme": "L/Y/YX", "maxlen": maxlen, "restores": "TRUE", "clears": "TRUE"}
+        # The machine is explored to 4 calls in both tiers.  Thorough replays every 4-call history; quick replays every
+        # 3-call history and, of the 4-call ones, the family fresh(X), reuse, override(Y # X), reuse (the shortest shape on
+        # which state kept by the calling process across an override can show) plus a seeded sample of the others.
+        hmod = {"MCWtmlHistory.tla": history_module(pops, FITS_EXT, 3 if quick else 4)}
+        cfg = {"scheme": "L/Y/YX", "maxlen": 4, "restores": "TRUE", "clears": "TRUE", "cache": "none"}
         rh = ctx.tlc("MCWtmlHistory", extra=hmod, cfg_text=HISTORY_CFG % cfg, workers=4, timeout=1800)
-        hists = sorted(rh.json_lines("H"), key=lambda h: [(st["input"], st["override"]) for st in h])
+        hkey = lambda h: [(st["input"], st["override"]) for st in h]      # noqa: E731
+        allh = sorted(rh.json_lines("H"), key=hkey)
         lap("history_tlc")
-        if not hists:
+        if not allh:
             ctx.machinery("TLC emitted no histories")
+
+        def stale_shape(h):
+            return (len(h) == 4 and [st["kind"] for st in h] == ["fresh", "reuse", "override", "reuse"]
+                    and h[2]["input"] != h[0]["input"])
+        if quick:
+            h4 = [h for h in allh if len(h) == 4]
+            family = [h for h in h4 if stale_shape(h)]
+            rest = [h for h in h4 if not stale_shape(h)]
+            picked = family + rng.sample(rest, min(8, len(rest)))
+            covered = set(tuple(hkey(h)[:3]) for h in picked)
+            hists = [h for h in allh if len(h) == 3 and tuple(hkey(h)) not in covered] + picked
+            if not family:
+                ctx.machinery("the machine generated no history of the shape fresh, reuse, override(other input), reuse")
+        else:
+            hists = [h for h in allh if len(h) == 4]
+        hists.sort(key=hkey)
+        # the output directory is named in turn by its absolute path, relative to the working directory, and by a
+        # differently spelled relative path; the stale-cache family never uses the absolute spelling
         hflows = []
+        nfam = nother = 0
         for n, h in enumerate(hists):
             w = wf("hist-%d" % n, [fits_call(st["input"], st["override"]) for st in h], "tile_fits-history")
             w["spec"] = h
+            if stale_shape(h):
+                w["path_style"] = ("rel", "respelled")[nfam % 2]
+                nfam += 1
+            else:
+                w["path_style"] = ("abs", "rel", "respelled")[nother % 3]
+                nother += 1
             hflows.append(w)
+        ctx.note("history_replay_selection", {"explored_calls": 4, "replayed": len(hists), "of_4_calls": sum(1 for h in hists if len(h) == 4),
+                                              "fresh_reuse_override_reuse": sum(1 for h in hists if stale_shape(h))})
         pending_h = pool.map_async(run_workflow, hflows, chunksize=2)
         # while the replays run: the machine must be able to tell the defects apart (both variants are refuted)
-        for variant, inv in (({"restores": "FALSE"}, "ReturnedAgrees"), ({"clears": "FALSE"}, "LevelsIsDeepest")):
-            c2 = dict(cfg, maxlen=min(maxlen, 3))
+        for variant, inv in (({"restores": "FALSE", "maxlen": 3}, "ReturnedAgrees"), ({"clears": "FALSE", "maxlen": 3}, "LevelsIsDeepest"),
+                             ({"cache": "stale"}, "ReturnedAgrees")):
+            c2 = dict(cfg)
             c2.update(variant)
             rv = ctx.tlc("MCWtmlHistory", extra=hmod, cfg_text=(HISTORY_CFG % c2).replace("INVARIANT Emit\n", ""), workers=1,
                          timeout=600, expect_violation=True, count=False)
@@ -746,8 +796,9 @@ def run(ctx):
                     kind = st["kind"]
                 else:
                     st, kind = None, "fresh"
-                rep = {"workflow": w["name"], "steps": _steps(w)[:k + 1]}
-                where = "%s call %d (%s)" % (w["name"], k + 1, " ; ".join(_steps(w)[:k + 1]))
+                rep = {"workflow": w["name"], "steps": _steps(w)[:k + 1], "out_dir_spelling": w.get("path_style", "abs"),
+                       "note": "all calls of a history are made by one process"}
+                where = "%s call %d (%s; out_dir spelled %s)" % (w["name"], k + 1, " ; ".join(_steps(w)[:k + 1]), w.get("path_style", "abs"))
                 real_kind = ("fresh" if not o["existed"] else ("override" if w["steps"][k][1]["override"] else "reuse"))
                 if real_kind != kind:
                     ctx.machinery("%s: the replay is in branch %s, the machine in %s" % (where, real_kind, kind))
